@@ -33,7 +33,8 @@ import time
 from harness import common, scriptlib
 
 PROP = 'C06'
-THEOREMS = ['C06_first', 'C06_second', 'C06_marks', 'C06_marks_cost', 'C06_text_partial', 'C06_reads',
+THEOREMS = ['C06_model', 'C06_model_docs', 'C06_model_text', 'C06_model_marks', 'C06_model_holds', 'C06_priced_text', 'C06_priced_marks',
+            'C06_bridge', 'C06_text', 'C06_first', 'C06_second', 'C06_marks', 'C06_marks_cost', 'C06_text_partial', 'C06_reads',
             'C06_reads_ordered_partial']
 MODELS = ['theories/RenderModel.vo', 'theories/ScriptKnown.vo']
 HEADER = ('From Coq Require Import List Bool ZArith String.\n'
@@ -390,13 +391,14 @@ def run_items(run, wd, items, st, tag):
     header = HEADER
     if st['models_ok']:
         evals.append('bad_cases corr_C06')
+        evals.append('bad_cases (fun c => negb (thm_C06 c))')      # cases INSIDE the hypotheses of C06_bridge
         header += MODEL_HEADER
     chunk = max(10, min(250, -(-len(terms) // (2 * common.NPROC))))
     bad, err = common.coq_eval_cases(wd, 'cases_' + tag, header, terms, evals, chunk=chunk)
     common.log(f'C06 {tag}: {len(items)} diffs, {len(terms)} renders, implementation {t1 - t0:.1f}s, '
                f'Coq evaluation {time.time() - t1:.1f}s')
     out = {'keep': keep, 'internal': internal, 'err': err, 'loads_ok': loads_ok, 'bad_holds': [], 'clauses': [[], [], []],
-           'out_domain': [], 'kf': {k: set() for k in KF_CLASSES}, 'bad_corr': []}
+           'out_domain': [], 'kf': {k: set() for k in KF_CLASSES}, 'bad_corr': [], 'in_thm': []}
     if not err:
         out['bad_holds'] = bad[0]
         out['clauses'] = bad[1:4]
@@ -404,6 +406,7 @@ def run_items(run, wd, items, st, tag):
         for j, k in enumerate(KF_CLASSES):
             out['kf'][k] = set(bad[5 + j])
         out['bad_corr'] = bad[5 + len(KF_CLASSES)] if st['models_ok'] else []
+        out['in_thm'] = bad[6 + len(KF_CLASSES)] if st['models_ok'] else []
     return out
 
 
@@ -413,7 +416,7 @@ BATCH = 1000      # diffs per evaluation batch (4 renders each)
 def run_all(run, wd, items, st, tag, findings, stats):
     """run_items + judge over batches; aggregated counts"""
     agg = {'n_cases': 0, 'loads_ok': 0, 'bad_corr': [], 'err': None, 'clauses': [0, 0, 0], 'out_domain': 0,
-           'kf': {k: 0 for k in KF_CLASSES}, 'samples': []}
+           'kf': {k: 0 for k in KF_CLASSES}, 'samples': [], 'in_thm': 0, 'in_thm_contradicted': 0}
     for k in range(0, len(items), BATCH):
         out = run_items(run, wd, items[k:k + BATCH], st, f'{tag}{k // BATCH}')
         if out['err'] and not agg['err']:
@@ -425,6 +428,10 @@ def run_all(run, wd, items, st, tag, findings, stats):
         for j in range(3):
             agg['clauses'][j] += len(out['clauses'][j])
         agg['out_domain'] += len(out['out_domain'])
+        agg['in_thm'] += len(out['in_thm'])
+        # C06_bridge: inside thm_C06 and corr_C06 true => the first two clauses hold; counted, never the verdict
+        fail12 = set(out['clauses'][0]) | set(out['clauses'][1])
+        agg['in_thm_contradicted'] += len([i for i in out['in_thm'] if i not in set(out['bad_corr']) and i in fail12])
         for c in KF_CLASSES:
             agg['kf'][c] += len(out['kf'][c])
         if not agg['samples']:
@@ -516,6 +523,10 @@ def check(tier, seed):
                                                'marks': agg['clauses'][2]}
         run.cov['json_loads_agree'] = f'{loads_ok} of {n_cases} (delimiter repair + json.loads of both projections; not the verdict)'
         run.cov['cases_outside_theorem_domain'] = agg['out_domain']
+        run.cov['cases_inside_bridge_hypotheses'] = (
+            f"{agg['in_thm']} of {agg['n_cases']} renders satisfy thm_C06 (JSON documents; the implementation's script valid, "
+            f"additive, priced, shaped; outside the D4/D16/D33 classes): for these C06_bridge makes the first two clauses of "
+            f"holds_C06 a theorem given corr_C06; contradicted on {agg['in_thm_contradicted']} (must be 0)")
         run.cov['known_finding_cases'] = {k: len(v) for k, v in stats['known'].items()}
         run.cov['kf_class_sizes'] = agg['kf']
         run.cov['rule'] = ('document pairs: fixed list (empty containers, adjacent remove+insert, container<->scalar, D4/D16 '
@@ -549,7 +560,7 @@ def replay(path):
         return 1
     wd = common.Workdir(PROP + 'r')
     try:
-        st = common.build(MODELS, [])
+        st = common.build(MODELS, MODELS)
         run = common.Run(PROP, 'replay', 0)
         it = {'a': item['a'], 'b': item['b'], 'opts': item.get('opts', ['auto', 'on'])}
         out = run_items(run, wd, [it], st, 'r')
